@@ -36,13 +36,16 @@ def to_lib(t, v):
     raise pyref.Unsupported(t.kind)
 
 
-def same(t, libv, refv):
-    """Is the library-level value libv the value refv of type t (also of the right Python kind)?"""
+def same(t, libv, refv, loose_bool=False):
+    """Is the library-level value libv the value refv of type t (also of the right Python kind)?
+    loose_bool: accept 0/1 for a bool (values read from integer sample sets)."""
     if t.kind == "tuple":
         if not isinstance(libv, (tuple, list)) or len(libv) != len(refv):
             return False
-        return all(same(x, a, b) for x, a, b in zip(t.a, libv, refv))
+        return all(same(x, a, b, loose_bool) for x, a, b in zip(t.a, libv, refv))
     if t.kind == "bool":
+        if loose_bool:
+            return libv in (0, 1, True, False) and bool(libv) == refv
         return isinstance(libv, bool) and libv == refv
     if t.kind == "int":
         return isinstance(libv, int) and not isinstance(libv, bool) and int(libv) == refv.v
